@@ -585,7 +585,11 @@ func (r *Reader) RefsFor(oid []byte) (*Iterator, error) {
 	if r.offsets[blockTypeObj].Present {
 		return r.refsForIndexed(oid)
 	}
+	return r.refsForLinear(oid)
+}
 
+// refsForLinear scans all refs for those pointing to `oid`.
+func (r *Reader) refsForLinear(oid []byte) (*Iterator, error) {
 	if !r.offsets[blockTypeRef].Present {
 		return &Iterator{&emptyIterator{}}, nil
 	}
@@ -621,6 +625,12 @@ func (r *Reader) refsForIndexed(oid []byte) (*Iterator, error) {
 	}
 	if !ok || got.key() != want.key() {
 		return &Iterator{&emptyIterator{}}, nil
+	}
+
+	if len(got.Offsets) == 0 {
+		// The writer omits the block positions if they do not
+		// fit in a block.
+		return r.refsForLinear(oid)
 	}
 
 	tr := &indexedTableRefIter{
